@@ -142,6 +142,15 @@ def from_repr(r):
         # instance of really a dict!
         if '__qualname__' in r and '__module__' in r:
 
+            if '__extra_attrs__' in r:
+                # attributes that are not constructor arguments, see
+                # `simple_repr`
+                r = dict(r)
+                extra_attrs = r.pop('__extra_attrs__')
+                o = from_repr(r)
+                for k, v in extra_attrs.items():
+                    setattr(o, k, from_repr(v))
+                return o
 
             if r['__qualname__'] == "tuple":
                 # special case for tuple ( not named)
@@ -183,7 +192,17 @@ def simple_repr(o):
     :return: a simple representation for this object
     """
     if hasattr(o, '_simple_repr'):
-        return o._simple_repr()
+        r = o._simple_repr()
+        # Some attributes are set on an object after its creation (e.g. the
+        # cycle id set on messages by synchronous computations) and are not
+        # constructor arguments: classes list them in `_repr_extra_attrs`.
+        extra_attrs = {a: simple_repr(getattr(o, a))
+                       for a in getattr(o, '_repr_extra_attrs', ())
+                       if hasattr(o, a)}
+        if extra_attrs:
+            r = dict(r)
+            r['__extra_attrs__'] = extra_attrs
+        return r
     elif isinstance(o, tuple):
         if hasattr(o, '_asdict'):
             # detect namedtuple
